@@ -77,6 +77,11 @@ structure OpM where
   pathProg : List Seg := []
   /-- declared path parameter names in struct field order -/
   pathFields : List String := []
+  /-- query parameters in struct field order -/
+  queryParams : List Param := []
+  /-- header parameters in struct field order: declared ones, then those `NewOperation` adds
+      for bearer / apiKey-in-header requirements -/
+  headerParams : List Param := []
 deriving Repr, Inhabited
 
 structure ItemM where
@@ -160,6 +165,15 @@ def corsHeadersOf (doc : Doc) (pi : PathItem) : Except String (List String) :=
   | .error e => .error e
   | .ok keys => .ok (dedupKeep keys.flatten)
 
+/-- `generator.NewOperation`: a bearer requirement adds a string header parameter
+    `Authorization`, an apiKey-in-header requirement one named after its header; required iff
+    it is the operation's only requirement -/
+def secHeaderParams (red : List (String × SchemeKind)) : List Param :=
+  red.filterMap (fun x => match x.2 with
+    | .bearer => some { loc := "header", name := "Authorization", required := red.length == 1, type := .str }
+    | .apiKeyHeader h => some { loc := "header", name := h, required := red.length == 1, type := .str }
+    | _ => none)
+
 def planOp (doc : Doc) (pi : PathItem) (o : Operation) : Except String OpM :=
   match reduceReqs doc (effectiveReqs doc o) with
   | .error e => .error e
@@ -168,7 +182,9 @@ def planOp (doc : Doc) (pi : PathItem) (o : Operation) : Except String OpM :=
     .ok { method := o.method, tpl := pi.raw, auth := authRefs red,
           hasPathParams := !pathPs.isEmpty,
           pathProg := pathProgOf pi.raw o.parameters,
-          pathFields := pathPs.map (·.name) }
+          pathFields := pathPs.map (·.name),
+          queryParams := o.parameters.filter (·.loc == "query"),
+          headerParams := o.parameters.filter (·.loc == "header") ++ secHeaderParams red }
 
 def planItem (doc : Doc) (cors : Bool) (pi : PathItem) : Except String ItemM :=
   match mapE (planOp doc pi) pi.ops with
@@ -323,11 +339,56 @@ def pathParse (leaf : LeafTable) (base : String) (o : OpM) (path : String) : Exc
   let vals ← runProg leaf o.pathProg p []
   pure (o.pathFields.map (fun f => ((vals.reverse.find? (·.1 == f)).map (·.2)).getD "?"))
 
+/-- the composed `ParseStrings` snippet of one declared query / header parameter on its
+    non-empty value list: scalars need exactly one value, arrays parse element-wise -/
+def parseValues (leaf : LeafTable) (p : Param) (vs : List String) : Except PErr String :=
+  if p.isArray then
+    match vs.mapM (fun v => pvalue leaf p.type v) with
+    | some ds => .ok ("[" ++ ",".intercalate ds ++ "]")
+    | none => .error (.param p.loc p.name "lexical")
+  else
+    match vs with
+    | [v] => match pvalue leaf p.type v with
+      | some d => .ok d
+      | none => .error (.param p.loc p.name "lexical")
+    | _ => .error (.param p.loc p.name "multiple")
+
+/-- the query / header block of `new<Op>Params`: required-ness check, then the parser when at
+    least one value is present; an absent optional parameter stays unset ("-") -/
+def parseBlock (leaf : LeafTable) (values : Param → List String) : List Param → Except PErr (List String)
+  | [] => .ok []
+  | p :: ps =>
+    let vs := values p
+    if vs.isEmpty then
+      (if p.required then .error (.param p.loc p.name "required")
+       else match parseBlock leaf values ps with
+         | .error e => .error e
+         | .ok ds => .ok ("-" :: ds))
+    else
+      match parseValues leaf p vs with
+      | .error e => .error e
+      | .ok d => match parseBlock leaf values ps with
+        | .error e => .error e
+        | .ok ds => .ok (d :: ds)
+
+def queryValues (req : Req) (p : Param) : List String := lookup req.query p.name
+def headerValues (req : Req) (p : Param) : List String := lookup req.headers (canonKey p.name)
+
+/-- `Parse()`: query block, header block, path block (in this order; the first failure is
+    returned); dump in struct order Query, Path, Headers -/
 def parseDump (leaf : LeafTable) (api : ApiM) (o : OpM) (req : Req) : String :=
-  if !o.hasPathParams then "ok" else
-  match pathParse leaf api.base o req.path with
+  match parseBlock leaf (queryValues req) o.queryParams with
   | .error e => e.render
-  | .ok vs => "ok Path[" ++ ",".intercalate vs ++ "]"
+  | .ok qs =>
+    match parseBlock leaf (headerValues req) o.headerParams with
+    | .error e => e.render
+    | .ok hs =>
+      match (if o.hasPathParams then pathParse leaf api.base o req.path else .ok []) with
+      | .error e => e.render
+      | .ok ps =>
+        "ok" ++ (if o.queryParams.isEmpty then "" else " Query[" ++ ",".intercalate qs ++ "]")
+             ++ (if o.hasPathParams then " Path[" ++ ",".intercalate ps ++ "]" else "")
+             ++ (if o.headerParams.isEmpty then "" else " Headers[" ++ ",".intercalate hs ++ "]")
 
 /-! ### ServeHTTP -/
 
